@@ -132,6 +132,21 @@ def cases(rng, tier):
         a = [[rng.choice(edge) if rng.random() < 0.5 else rng.randrange(-3, 4) for _ in range(m)] for _ in range(n)]
         out.append(Case('hnf_with_u', line('hnf_with_u', a), oracle=H.o_hu(a), always_oracle=True, nontrivial=nontriv(a), tag='word-boundary-entries'))
         out.append(Case('hnf_determinant', line('hnf_determinant', a), oracle=H.o_det(a), always_oracle=True, nontrivial=nontriv(a), tag='word-boundary-entries'))
+    # ---- long generator lists (65..130 rows, 2..4 columns, tiny entries): the essential generators sit in the tail, the head spans
+    # a proper sublattice (a blockwise reduction that drops or reorders a partial block shows only here)
+    for _ in range(12 if not th else 120):
+        m = rng.randrange(2, 5); n = rng.choice([65, 66, 70, 95, 97, 130])
+        head = [[2 * rng.randrange(-2, 3) for _ in range(m)] for _ in range(n - m - rng.randrange(0, 3))]
+        tail = [[int(i == j) for j in range(m)] for i in range(m)]
+        rng.shuffle(tail)
+        a = head + tail + [[2 * rng.randrange(-1, 2) for _ in range(m)] for _ in range(n - len(head) - m)]
+        out.append(Case('hnf_new', line('hnf_new', a), oracle=H.o_new(a), always_oracle=True, nontrivial=True, tag='new-long-list'))
+        b = [list(r) for r in reversed(a)]
+        out.append(Case('hnf_new_pair', line('hnf_new_pair', a, b), oracle=H.o_pair(a, b, True), always_oracle=True, nontrivial=True, tag='pair-long-list'))
+    for k in (33, 40, 64, 65):
+        a = [[2 * int(i == j) for j in range(k)] for i in range(k)] if k <= 40 else [[2 * int(j == i % 3) for j in range(3)] for i in range(k)]
+        b = [[int(i == j) for j in range(len(a[0]))] for i in range(len(a[0]))]
+        out.append(Case('hnf_union', line('hnf_union', a, b), oracle=H.o_union(a, b), always_oracle=True, tag='union-long'))
     # ---- lattices of DIFFERENT rank (negative controls for PartialEq): a sub-family of the generators, the zero module, and a
     # lattice against itself plus one independent vector; decided by the certified reference
     for tag, a in H.structured_mats(rng, 120 if not th else 1200, 5, [2, 4, 16]):
